@@ -226,6 +226,7 @@ type harness struct {
 	ctx    *distsys.MPCalContext
 	proto  bool
 	nested bool // nproto mode
+	quiet  bool // drain phase: settle does not log its observation (parked Stop calls are still logged)
 	inner  []*innerCtx
 
 	gateB, gateBody, gateC *gate
@@ -936,6 +937,9 @@ func (h *harness) settle() {
 			rw = append(rw, g.status+"@"+site(g))
 		}
 	}
+	if h.quiet {
+		return
+	}
 	if h.nested {
 		iv := []string{}
 		for _, in := range h.inner {
@@ -1024,6 +1028,7 @@ func (h *harness) finishCase() {
 // afterwards can only be moved by the code under test; the final wait is timer-free, so if calls are
 // outstanding then the Go runtime reports the deadlock.
 func (h *harness) drain() {
+	h.quiet = true
 	for n := 0; ; n++ {
 		if n > 400 {
 			fatal(3, "watchdog: drain of case %d does not end", h.cs.ID)
@@ -1161,6 +1166,41 @@ func summarise(stderr string) []string {
 	return out
 }
 
+// crashSite: the child died of a panic. If the panicking goroutine's innermost frame outside the Go runtime is
+// code of /repo's distsys (a goroutine of the code under test that nobody can guard with recover, e.g. the ones
+// NewNested starts), returns the panic message and that frame; otherwise ok is false (harness problem).
+func crashSite(stderr string) (msg, where string, ok bool) {
+	i := strings.Index(stderr, "panic: ")
+	if i < 0 {
+		return "", "", false
+	}
+	rest := stderr[i:]
+	lines := strings.Split(rest, "\n")
+	msg = strings.TrimPrefix(lines[0], "panic: ")
+	inG := false
+	for _, ln := range lines[1:] {
+		if hdrRe.MatchString(ln) {
+			if inG {
+				break
+			}
+			inG = true
+			continue
+		}
+		if !inG || ln == "" || strings.HasPrefix(ln, "\t") || strings.HasPrefix(ln, "created by") {
+			continue
+		}
+		if strings.HasPrefix(ln, "runtime.") || strings.HasPrefix(ln, "panic(") || strings.HasPrefix(ln, "sync.") ||
+			strings.HasPrefix(ln, "internal/") {
+			continue
+		}
+		if j := strings.LastIndex(ln, "("); j > 0 {
+			ln = ln[:j]
+		}
+		return msg, ln, strings.Contains(ln, "pgo/distsys")
+	}
+	return msg, "", false
+}
+
 func tail(s string, n int) string {
 	if len(s) > n {
 		return s[len(s)-n:]
@@ -1176,6 +1216,7 @@ func supervise(casesPath, outPath string, n int, stall int, maxDeadlocks int) {
 	from := 0
 	deadlocks := 0
 	watchdogs := 0
+	crashes := 0
 	for from < n {
 		cmd := exec.Command(self, "-mode", "child", "-cases", casesPath, "-out", outPath, "-from", strconv.Itoa(from))
 		cmd.Env = append(os.Environ(), "GOTRACEBACK=all")
@@ -1243,6 +1284,18 @@ func supervise(casesPath, outPath string, n int, stall int, maxDeadlocks int) {
 			from = int(last.Load()) + 1
 			if maxDeadlocks > 0 && deadlocks >= maxDeadlocks && from < n {
 				// every deadlock costs a process and the runtime's detection latency; the batch has made its point
+				fmt.Printf("cases=%d executed=%d deadlocks=%d watchdogs=%d skipped=%d\n", n, from, deadlocks, watchdogs, n-from)
+				return
+			}
+			continue
+		}
+		if msg, where, ok := crashSite(se); ok && crashes < 10 {
+			// an unguardable goroutine of the code under test panicked and took the process down
+			emit(rec{"e": "end", "why": "crash", "msg": msg, "where": []string{"panic: " + msg + " @" + where}})
+			crashes++
+			deadlocks++ // counts against -maxdeadlocks as well
+			from = int(last.Load()) + 1
+			if maxDeadlocks > 0 && deadlocks >= maxDeadlocks && from < n {
 				fmt.Printf("cases=%d executed=%d deadlocks=%d watchdogs=%d skipped=%d\n", n, from, deadlocks, watchdogs, n-from)
 				return
 			}
